@@ -155,6 +155,15 @@ def _(eng, ci, a, sp):
     return Struct('SeqIter', [v, 0, 'ref'])
 
 
+@S('impl_slice::windows')
+def _(eng, ci, a, sp):
+    v = deref_all(a[0])
+    n = conc(eng, a[1])
+    items = list(v.items)
+    wins = [Bytes(items[i:i + n], 'slice') for i in range(0, max(0, len(items) - n + 1))]
+    return Struct('SeqIter', [Vec(wins), 0, 'val'])
+
+
 @S('Vec::truncate')
 def _(eng, ci, a, sp):
     v = deref_all(a[0])
@@ -216,7 +225,7 @@ def _(eng, ci, a, sp):
             raise Unsupported('symbolic non-ASCII byte in UTF-8 validation (outside the stated alphabet)')
     if ci.method in ('to_str',):
         return some(Bytes(items, 'str'))
-    if ci.method == 'from_utf8' and ci.segs[-2] != 'String':
+    if ci.method == 'from_utf8' and (len(ci.segs) < 2 or ci.segs[-2] != 'String'):
         return ok(Bytes(items, 'str'))
     return ok(Vec(items, 'String'))
 
